@@ -535,6 +535,66 @@ def ply_facts(rep):
         k: sorted(v) for k, v in written.items()}
 
 
+def check_clone_shared_ply_state(repo, rep):
+    """R01h.  ply's Lexer.clone() is copy.copy(): the per-call lexer shares
+    with the engine's base lexer every container that clone() does not
+    re-bind.  The methods of ply's Lexer that *mutate* such a container
+    (derived from ply/lex.py on every run: today push_state / pop_state,
+    which append to / pop from `lexstatestack`) therefore make one parse
+    visible to a concurrent one: the parse path must not call them."""
+    try:
+        import ply.lex as lexmod
+        with open(lexmod.__file__) as f:
+            tree = ast.parse(f.read())
+    except Exception as e:
+        raise AnalysisError('ply source not readable: %r' % (e,))
+    lx = [n for n in ast.walk(tree)
+          if isinstance(n, ast.ClassDef) and n.name == 'Lexer']
+    if not lx:
+        raise AnalysisError('anchor vanished: ply.lex.Lexer')
+    methods = {m.name: m for m in lx[0].body
+               if isinstance(m, ast.FunctionDef)}
+    clone = methods.get('clone')
+    if clone is None:
+        raise AnalysisError('anchor vanished: ply.lex.Lexer.clone')
+    rebound = {t.attr for n in ast.walk(clone)
+               if isinstance(n, ast.Assign) for t in n.targets
+               if isinstance(t, ast.Attribute)}
+    sharing = {}
+    for name, m in methods.items():
+        if name in ('__init__', 'clone'):
+            continue
+        for w in effects.writes_in(m):
+            if w.root == 'self' and w.kind in (
+                    'mutcall', 'subscript', 'del-subscript') and w.chain:
+                attr = w.chain[0][1:]
+                if attr not in rebound:
+                    sharing.setdefault(name, set()).add(attr)
+    rep.extra_cov['ply_lexer_methods_mutating_clone_shared_state'] = {
+        k: sorted(v) for k, v in sharing.items()}
+    if not sharing:
+        rep.note('ply Lexer has no method that mutates state shared by '
+                 'clones')
+    n = 0
+    for modname in ENGINE_MODULES:
+        mod = repo.module(modname)
+        for c in ast.walk(mod.tree):
+            if isinstance(c, ast.Call) and isinstance(
+                    c.func, ast.Attribute) and c.func.attr in sharing:
+                n += 1
+                rep.ob('R01h', '%s/%s' % (modname, c.func.attr), False,
+                       '`%s`: ply Lexer.%s() mutates %s, a container every '
+                       'clone() of the engine\'s lexer shares (clone is a '
+                       'shallow copy): two parses on one engine push and '
+                       'pop each other\'s lexer states' % (
+                           model.norm(c), c.func.attr,
+                           sorted(sharing[c.func.attr])),
+                       loc=mod.loc(c), construct=model.norm(c))
+    rep.ob('R01h', 'parse-path', True,
+           'no call of %s in the lexer / parser / factory' % sorted(sharing),
+           nontrivial=True)
+
+
 def check_eval_globals(repo, rep):
     init = repo.module('yaql')
     n = 0
@@ -742,6 +802,9 @@ def check_clone_is_independent(repo, rep):
 
 
 def run(repo, rep):
+    rep.rule('R01h', 'NO-CLONE-SHARED-PLY-STATE: the parse path calls no '
+             'method of the ply lexer that mutates a container shared by its '
+             'clones (push_state / pop_state)')
     rep.rule('R01g', 'CLONE-IS-INDEPENDENT: clone() of a repository class '
              'on the parse path shares no mutable attribute with the '
              'original')
@@ -781,3 +844,9 @@ def run(repo, rep):
     check_eval_globals(repo, rep)
     check_engine_state_is_per_engine(repo, rep)
     check_clone_is_independent(repo, rep)
+    check_clone_shared_ply_state(repo, rep)
+    from sa.rules import c18
+    rep.rule('R18g', 'see C18: no library code sets an interpreter-wide '
+             'setting (a parse that lifts a process limit and restores it '
+             'is seen by every concurrent parse)')
+    c18.check_no_process_global_setters(repo, rep, 'R18g')
